@@ -25,6 +25,57 @@ EXPLANATION = (
 )
 
 
+def _with_private_helpers(m, depth=3):
+    """the method's node plus the private methods of its class it (transitively) calls on self"""
+    nodes = [m.node]
+    if m.cls is None:
+        return nodes
+    frontier = [m.node]
+    for _d in range(depth):
+        nxt = []
+        for fn_ in frontier:
+            for c in ast.walk(fn_):
+                if isinstance(c, ast.Call) and isinstance(c.func, ast.Attribute) and isinstance(c.func.value, ast.Name) and c.func.value.id == "self" \
+                        and c.func.attr.startswith("_"):
+                    h = m.cls.find_method(c.func.attr)
+                    if h is not None and h.node not in nodes:
+                        nodes.append(h.node)
+                        nxt.append(h.node)
+        frontier = nxt
+    return nodes
+
+
+def _expand_helper_roots(m, roots, node_param: str, depth=2):
+    """a value that comes out of self.<private helper>(node, …) depends on what the helper's result depends on: replace `call:<helper>` by the
+    roots of the helper's returns, its node parameter renamed to the caller's"""
+    out = set(roots)
+    if m.cls is None or depth <= 0:
+        return out
+    for r in list(roots):
+        if not r.startswith("call:"):
+            continue
+        h = m.cls.find_method(r[5:])
+        if h is None or not r[5:].startswith("_") or h.node is m.node:
+            continue
+        gh = cfgmod.build(h.node)
+        dh = depsmod.Deps(gh, h.params(), control=True)
+        hp = [p_ for p_ in h.params() if p_ != "self"]
+        for ret in gh.returns():
+            if ret.stmt.value is None:
+                continue
+            rr = dh.roots_at(ret, ret.stmt.value) | dh.own_guard_roots(ret)
+            rr = _expand_helper_roots(h, rr, node_param=hp[0] if hp else node_param, depth=depth - 1)
+            for x in rr:
+                if hp and (x == hp[0] or x.startswith(hp[0] + ".")):
+                    out.add(node_param + x[len(hp[0]):])
+                elif len(hp) > 1 and any(x == q or x.startswith(q + ".") for q in hp[1:]):
+                    # other parameters: positional fields of the node handed over by the caller are unknown here; keep the call root only
+                    out.add(x)
+                else:
+                    out.add(x)
+    return out
+
+
 def _calls(fnode, attr):
     return [c for c in ast.walk(fnode) if isinstance(c, ast.Call) and isinstance(c.func, ast.Attribute) and c.func.attr == attr]
 
@@ -177,14 +228,19 @@ def run(program, res, tier):
             res.ok("C27-S4", "SQL: every computed term is `expr + window_term`")
         else:
             res.fail_at("C27-S4", sq, "sql-term-without-window", f"`{unparse(n.stmt)[:70]}` does not append the window clause", n.stmt)
+        roots = _expand_helper_roots(sq, roots, node_param="extend_node")
         miss = depsmod.missing_roots(roots, ["extend_node.partition_by", "extend_node.order_by", "extend_node.reverse"])
         if miss:
             res.fail_at("C27-S1", sq, f"sql-window-lacks:{','.join(miss)}", f"the window clause does not depend on {miss}", n.stmt)
         else:
             res.ok("C27-S1", "SQL: window clause depends on partition_by, order_by and reverse")
-    txt = unparse(sq.node)
-    pi = txt.find("'PARTITION BY '")
-    oi = txt.find("'ORDER BY '")
+    txt = "\n".join(unparse(n_) for n_ in _with_private_helpers(sq))
+    # the text of the clause is assembled in source order inside one function: compare positions within the function that has both
+    pi = oi = -1
+    for n_ in _with_private_helpers(sq):
+        t_ = unparse(n_)
+        if "'PARTITION BY '" in t_ and "'ORDER BY '" in t_:
+            pi, oi = t_.find("'PARTITION BY '"), t_.find("'ORDER BY '")
     if 0 <= pi < oi:
         res.ok("C27-S1", "SQL: OVER ( PARTITION BY … ORDER BY … ) in that order")
     else:
